@@ -126,6 +126,8 @@ def _make(p, stamp, src, owned):
         return w.pus_tm, w
     if path == 6:
         return PusTm(service, subservice, owned.give(stamp, kind)), None
+    if path == 7:
+        return PusTm.empty(), None
     raise RuntimeError("bad path")
 
 
@@ -169,12 +171,15 @@ def _set_hdr(t, w, f, v, route):
 
 def _hist_op(st, o, owned):
     t, w, k = st["t"], st["w"], o[0]
-    if k == 0: return [list(w.pack() if w is not None and len(o) > 1 and o[1] else t.pack())]
-    if k == 1: return [list(t.pack(recalc_crc=False))]
+    if k == 0: return [list(owned.handed_out(w.pack() if w is not None and len(o) > 1 and o[1] else t.pack()))]
+    if k == 1: return [list(owned.handed_out(t.pack(recalc_crc=False)))]
     if k == 2: t.calc_crc(); return []
     if k == 3: t.tm_data = bytes(o[1:]); return []
     if k == 5: t.apid = o[1]; return []
-    if k == 7: return [list(t.to_space_packet().pack())]
+    if k == 7:
+        v = t.to_space_packet()
+        owned.handed_out(v.sec_header); owned.handed_out(v.user_data)
+        return [list(owned.handed_out(v.pack()))]
     if k == 8: return _inspect(t, w)
     if k == 9: t.tm_data = owned.give(o[1:], 1); return []
     if k == 10:
@@ -221,7 +226,7 @@ def _hist(a):
             out.append([1, _canon(e)])
             continue
         out.append([0]); out.extend(r)
-    out.append([owned.changed()])
+    out.append([owned.changed(), owned.out_changed()])
     return out
 
 
@@ -367,6 +372,9 @@ def _initial_state(a):
         S.update({"service": 17, "msgcnt": 0})
     elif path == 6:
         S.update({"ver": 0, "apid": 0, "count": 0, "msgcnt": 0, "ref": 0, "dest": 0, "src": [], "dlen": 8 + len(stamp)})
+    elif path == 7:
+        S.update({"ver": 0, "apid": 0, "count": 0, "msgcnt": 0, "ref": 0, "dest": 0, "src": [], "dlen": 15, "service": 0,
+                  "subservice": 0, "stamp": [0x40, 0, 0, 0, 0, 0, 0]})
     if not (0 <= S["apid"] < 2048 and 0 <= S["count"] < 16384 and 0 <= S["dlen"] < 65536 and 0 <= S["service"] < 256
             and 0 <= S["subservice"] < 256 and 0 <= S["msgcnt"] < 65536):
         return None
@@ -500,8 +508,10 @@ def _hist_oracle(a, ires):
         for nm, x, y in zip(names, out, exp):
             if x != y:
                 return ("C11/PusTm.history/state-differs", "%s: %s reads %s, the operations so far prescribe %s" % (where, nm, x[:24], y[:24]))
-    if obs[-1] != [0]:
+    if obs[-1][0] != 0:
         return ("C11/PusTm/caller-buffer-modified", "%d bytearray(s) owned by the caller were changed by the library during %s" % (obs[-1][0], [x[:6] for x in ops]))
+    if obs[-1][1] != 0:
+        return ("C11/PusTm/returned-octets-changed-later", "%d octet string(s) returned by pack() / to_space_packet() changed when the object was used again: %s" % (obs[-1][1], [x[:6] for x in ops]))
     return None
 
 
@@ -518,7 +528,7 @@ def _hist_params(rng, path=None, n=None, tl=None, kind=None, consistent=True):
         tl = len(b[1]) if rng.random() < 0.95 else rng.choice([255, 256, 512])
     src = pc.rbytes(rng, n) if rng.random() < 0.8 else rng.choice(PATTERNS)(n)
     stamp = pc.rbytes(rng, tl) if rng.random() < 0.8 else rng.choice(PATTERNS)(tl)
-    path = rng.choice([0, 0, 2, 2, 3, 3, 4, 5, 6]) if path is None else path
+    path = rng.choice([0, 0, 0, 2, 2, 2, 3, 3, 3, 4, 4, 5, 5, 6, 7]) if path is None else path
     kind = rng.randrange(2) if kind is None else kind
     ptype, shf, dlen = 0, 1, 8 + tl + n
     if path == 2 and not consistent:
@@ -594,7 +604,27 @@ def _all_mutations(rng, tl, cur_len):
         out.append([31, f, rng.randrange(_RANGES[_SEC_KEYS[f]]) if f else rng.choice([2, 2, 1])])
     out.append([24, rng.randrange(256), rng.randrange(256), rng.randrange(65536), rng.randrange(65536), rng.randrange(16)] + pc.rbytes(rng, tl))
     out.append([23, 0, rng.randrange(2048), rng.randrange(16384), 8 + tl + cur_len, 1, rng.randrange(4), rng.randrange(8)])
+    out.append([23, 0, 2048, 1, 8 + tl + cur_len, 1, 3, 0])     # refused: the object must be unchanged afterwards
+    out.append([24, 256, 1, 1, 1, 1] + pc.rbytes(rng, tl))
+    out.append([24, 1, 1, 65536, 1, 1] + pc.rbytes(rng, tl))
     return out
+
+
+def _directed(rng, tl, d):
+    n = 8 + tl + len(d)
+    return [
+        [[3] + d, [30, 6, n + 3, 0], [3] + d],
+        [[9] + d, [30, 6, 0, 1], [10]],
+        [[9] + d, [7], [10, 1], [7], [10, 2], [0]],
+        [[3] + d, [0], [3] + d, [1]],
+        [[0], [30, 5, 1, 1], [30, 5, 1, 4], [1], [7]],
+        [[7], [7], [7], [0, 1]],
+        [[2], [31, 4, 513], [7], [31, 4, 513], [7]],
+        [[0], [31, 5, 258], [7], [31, 4, 77], [7], [30, 5, 101, 0], [7]],     # the next packet of a stream: counters bumped
+        [[27, 1], [7], [8], [27, 2], [7], [10, 5], [7], [27, 3], [31, 5, 9], [7]],
+        [[22] + pc.rbytes(rng, tl), [7], [22] + pc.rbytes(rng, tl + 1), [3] + d, [7]],
+        [[23, 0, 2048, 0, n, 1, 3, 0], [8], [0]],
+    ]
 
 
 def _layout_fast(service, subservice, apid, seq, msgcnt, ref, dest, version, stamp, src):
@@ -672,10 +702,15 @@ def hardening_streams(tier, rng):
         for path, kind in ((0, 1), (2, 0), (3, 1), (4, 0), (5, 1)) + (((0, 0), (3, 0)) if big else ()):
             for pr in primes:
                 base = _hist_params(rng, path=path, kind=kind, n=rng.randrange(0, 9), tl=rng.choice([0, 7, 7, 3]))
-                for m in _all_mutations(rng, len(base[1]), len(base[2])) + [None]:
-                    for v in ([7], [0], [26]):
+                muts = _all_mutations(rng, len(base[1]), len(base[2]))
+                for m in muts + [None]:
+                    for v in ([7], [0], [1], [26]):
                         ops = [list(x) for x in pr] + ([list(m)] if m is not None else []) + [v, [8]]
                         cases.append((620, base + ops))
+                for m in muts:
+                    cases.append((620, base + [list(x) for x in pr] + [list(m), list(m), [7], [8]]))
+                for seq in _directed(rng, len(base[1]), pc.rbytes(rng, rng.choice([0, 1, 5]))):
+                    cases.append((620, base + [list(x) for x in pr] + seq))
     yield "live_object_every_route_then_views", "exact", cases
     # D. random histories up to 10 operations
     cases = []
@@ -704,16 +739,25 @@ def hardening_streams(tier, rng):
             base = _hist_params(rng, path=rng.choice([0, 3, 4]), n=rng.randrange(0, 4), tl=rng.choice([0, 7]))
             d = pc.rbytes(rng, n)
             cases.append((620, base + [[7], [k] + d, [7], [8], [0], [10, 1, 2], [7], [8]]))
+    for n in sizes:
+        if n >= 250:
+            cases.append((620, _hist_params(rng, path=rng.choice([3, 5]), kind=1, n=n, tl=rng.choice([0, 7])) + [[8], [7], [8]]))
+            cases.append((620, _hist_params(rng, path=rng.choice([0, 2, 4]), kind=1, n=rng.choice([0, n]), tl=rng.choice([7, n])) + [[7], [8], [7]]))
     for n in ((65510, 65518) if big else (65518,)):
         base = _hist_params(rng, path=0, kind=1, n=2, tl=7)
         cases.append((620, base + [[9] + [0xFF] * n, [7], [10, 1, 2], [8]]))
     yield "live_object_size_sweep", "exact", cases
 
 
+_SPEC_SIZES = set(NEAR_256) | {4096, 65520}
+
+
 def oracle_spec(case, ires):
     op, a = case
     if op in (601, 604, 605) and valid_args(a):
-        return [(650, a[:3])]
+        n = len(a[1]) + len(a[2])
+        if n <= 300 or len(a[2]) in _SPEC_SIZES or len(a[1]) in _SPEC_SIZES:
+            return [(650, a[:3])]
     return []
 
 
